@@ -78,7 +78,8 @@ REQUIRED_LABELS = {
         "ternary", "stochastic_binary", "stochastic_ternary", "phase_switch",
         "tiny_elem", "binary_infer:rank1", "binary_infer:lastdim1",
         "binary_infer:lastdim_eq_rank", "binary_infer:lastdim_ne_rank",
-        "binary_infer:rank2", "binary_infer:rank3", "binary_infer:rank4"]
+        "binary_infer:rank2", "binary_infer:rank3", "binary_infer:rank4",
+        "threshold_probe", "wide_format", "zero_channel"]
     for t in ("quick", "thorough")}
 
 NDRAWS = {"quick": 2048, "thorough": 16384}
@@ -287,6 +288,11 @@ def _sign_train(cfg, base, y, redraw):
                      ("denormal_channel" if denorm else "other")},
                     "channel %r -> %r" % (list(xc[:6]), np.unique(col[~np.isfinite(col)])[:3]),
                     elem(0, ch)))
+      continue
+    if isinstance(alpha, str) and float(np.max(np.abs(xc))) < 1.1754944e-38:
+      # zero / denormal channel with a data-dependent scale: the scale itself
+      # degenerates to 0 (C05's subject); here only finiteness is required
+      stats["degenerate_scale_channel"] = True
       continue
     nz = np.abs(col[col != 0])
     if nz.size == 0:
@@ -660,6 +666,10 @@ def oracle(case):
   labels += [k for k, v in stats.items() if v]
   if case.get("zero_channel"):
     labels.append("zero_channel")
+  if case.get("probe"):
+    labels.append("threshold_probe")
+  if fam == "fixed" and cfg["kw"].get("bits", 0) >= 16:
+    labels.append("wide_format")
   nontrivial = stats.get("interior", False) and (stats.get("exact_code", False) or
                                                  fam in ("sign", "auto"))
   return fails, labels, nontrivial
@@ -677,7 +687,10 @@ def _cfg_pools(tier):
   by = {}
   for c in ftrain:
     by.setdefault(c["cls"], []).append(c)
-  return {"fixed": by, "fixed_infer_only": finfer, "po2": S.po2_cfgs(tier),
+  wide = S.wide_cfgs()
+  for c in wide:
+    by.setdefault(c["cls"], []).append(c)      # also drawn by Hypothesis
+  return {"fixed": by, "fixed_infer_only": finfer, "po2": S.po2_cfgs(tier), "wide": wide,
           "sign": S.sign_cfgs(tier), "auto": S.auto_cfgs(tier), "excluded": excl}
 
 
@@ -712,6 +725,17 @@ def _walk_cases(ctx, pools):
     out.append({"fam": "sign", "cfg": cfg, "xs": t["xs"], "shape": t["shape"],
                 "phases": SCHEDULES[k % len(SCHEDULES)] if S.sign_trainable(cfg) else [0],
                 "train": S.sign_trainable(cfg), "flat_infer": bool(k % 3 == 1)})
+  # inference: probes at and around every decision threshold (0.33, 1/3, explicit
+  # thresholds, 0) for every sign-type configuration, as a column and as a vector
+  for k, cfg in enumerate(pools["sign"]):
+    pr = S.threshold_probes(cfg)
+    out.append({"fam": "sign", "cfg": cfg, "xs": pr,
+                "shape": [len(pr), 1] if k % 2 else [len(pr)], "phases": [0],
+                "train": False, "probe": True})
+  # wide formats: exact codes with large indices, drawn n times each
+  for k, cfg in enumerate(pools["wide"]):
+    out.append({"fam": "fixed", "cfg": cfg, "xs": S.wide_walk(cfg),
+                "phases": SCHEDULES[k % len(SCHEDULES)], "wide": True})
   # binary(use_stochastic_rounding) at inference over every rank / last-dimension
   # class (regression domain of the fixed C08-KF2/KF2b)
   bshapes = [[6], [1], [3, 1], [2, 4], [4, 2], [5, 5], [2, 2, 2], [2, 3, 1], [3, 2, 3],
